@@ -181,6 +181,44 @@ fn main() {
             }
             println!("{}", o.generated);
         }
+        "gen-stats" => {
+            // how often does an import-heavy set contain a module that imports >= 2 values whose
+            // governing named types live in >= 2 distinct modules?
+            let n: u64 = args[2].parse().unwrap();
+            let mut hits = 0;
+            let mut typed_imports = 0;
+            for seed in 0..n {
+                let mut rng = rng::Rng::new(seed);
+                let mut cfg = gen::GenCfg::default_cfg();
+                cfg.comments = false;
+                cfg.intra_shared_enumerals = true;
+                cfg.classes = true;
+                cfg.real_components = true;
+                cfg.value_import_bias = true;
+                cfg.modules = (3, 5);
+                cfg.assigns = (3, 8);
+                let set = gen::generate(&mut rng, &cfg);
+                for m in &set.modules {
+                    let mut homes = std::collections::BTreeSet::new();
+                    for imp in &m.imports {
+                        let Some(em) = set.get(&imp.from) else { continue };
+                        for sym in &imp.symbols {
+                            for a in em.assigns.iter().filter(|a| &a.name == sym && a.kind == gen::AKind::Value) {
+                                for r in &a.refs {
+                                    let home = em.imports.iter().find(|i| i.symbols.contains(r)).map(|i| i.from.clone()).unwrap_or(em.name.clone());
+                                    typed_imports += 1;
+                                    homes.insert(home);
+                                }
+                            }
+                        }
+                    }
+                    if homes.len() >= 2 {
+                        hits += 1;
+                    }
+                }
+            }
+            println!("sets={n} modules_with_typed_value_imports_from_>=2_homes={hits} typed_value_imports={typed_imports}");
+        }
         "gen" => {
             let seed: u64 = args[2].parse().unwrap();
             let mut rng = rng::Rng::new(seed);
